@@ -3,7 +3,7 @@
 # in a fresh scratch worktree of /repo HEAD: unit tests pass with it, demo fails with it, demo passes without it.
 export GOFLAGS=-mod=mod GOPROXY=off GOSUMDB=off GOTOOLCHAIN=local
 ID=$1; shift
-OUT=/tmp/wt/$ID.out
+OUT=${WT:-/tmp/wt}/$ID.out
 W=/tmp/ev/wt-$ID
 rm -rf $W; git -C /repo worktree prune
 git -C /repo worktree add -q --detach $W HEAD || exit 2
